@@ -307,13 +307,13 @@ func c05Cases(c *Ctx, emit func(ocraCase)) {
 		if !ok {
 			continue // C15 reports names that are not well-formed
 		}
-		for v := 0; v < c.N(12, 60); v++ {
+		for v := 0; v < c.N(60, 600); v++ {
 			kh, sec := secretFor()
 			emitWithVariants(ocraCase{KeyHex: kh, Secret: sec, Via: viaRaw, Suite: ref.Suite{Raw: name}, Input: inputToJ(admissibleInput(rng, m, v))})
 		}
 	}
 	// parsed strings (only numeric challenges are representable by the parser; others may be rejected)
-	for i := 0; i < c.N(400, 6000); i++ {
+	for i := 0; i < c.N(6000, 100000); i++ {
 		name := genSuiteName(rng)
 		m, ok := ref.ParseSuiteName(name)
 		if !ok {
@@ -326,7 +326,7 @@ func c05Cases(c *Ctx, emit func(ocraCase)) {
 	raws := []string{"", "OCRA-1:HOTP-SHA1-6:QN08", strings.Repeat("suite-text ", 28)}
 	vias := []string{viaNewSuite, viaBare, viaRawValue}
 	for i, s := range handBuiltSuites(rng, raws) {
-		for v := 0; v < c.N(1, 8); v++ {
+		for v := 0; v < c.N(6, 60); v++ {
 			kh, sec := secretFor()
 			emitWithVariants(ocraCase{KeyHex: kh, Secret: sec, Via: vias[(i+v)%3], Suite: s, Input: inputToJ(admissibleInput(rng, s, i+v*7))})
 		}
@@ -365,10 +365,7 @@ func checkOCRAMessages(c *Ctx, cases []ocraCase) {
 		return
 	}
 	reached := false
-	for i, k := range cases {
-		if i%7 != 0 {
-			continue
-		}
+	for _, k := range cases {
 		if checkOneOCRAMessage(c, k) {
 			reached = true
 		}
@@ -421,11 +418,11 @@ func init() {
 		Rule: "suites = every advertised name, grammar-generated suite strings the parser accepts, and hand-built configurations (3 hashes x digits 4..10 x 32 field subsets x formats x password hashes x suite texts '', a name, 300 bytes) through NewSuite / bare SuiteConfig / RawSuite value; inputs admissible with boundary lengths (challenge min..128, session nil/0..128); each GenerateOCRA result compared with an independent RFC 6287 model, then repeated 3x with arbitrary content in unselected fields; " +
 			"distinct_nontrivial counts distinct (key, route, suite, input) tuples whose exact code was compared",
 		Run: func(c *Ctx) {
-			var cases []ocraCase
-			c05Cases(c, func(k ocraCase) { cases = append(cases, k) })
-			parallelJudge(c, cases, judgeOCRA)
-			checkOCRAMessages(c, cases)
-			runFmtStage(c, true, 4, c.N(3000, 200000))
+			b := newBatcher(c, judgeOCRA, 7)
+			c05Cases(c, b.add)
+			b.flush()
+			checkOCRAMessages(c, b.keep)
+			runFmtStage(c, true, 4, c.N(20000, 1000000))
 		},
 		Replay: func(c *Ctx, kind string, raw json.RawMessage) error {
 			switch kind {
